@@ -25,6 +25,10 @@ UNITS = {
     "ext3": ("ext:E3", [("x", 1), ("y", 1), ("z", 1)], []),
     "extbus": ("ext:EB", [("x", 1), ("y", 1), ("bus", 3)], []),
     "mod": ("mod:UM", [("a", 1), ("b", 1), ("c", 2)], []),
+    # unit ports named like what the generators themselves create inside (signal i, array units, instance inner)
+    "ext_i": ("ext:EI", [("x", 1), ("y", 1), ("i", 1)], []),
+    "ext_units": ("ext:EU", [("x", 1), ("y", 1), ("units", 1)], []),
+    "ext_inner": ("ext:EN", [("x", 1), ("y", 1), ("inner", 1)], []),
     "modbundle": ("mod:UB", [("a", 1), ("b", 1)], [("bp", "B1")]),
 }
 
@@ -63,7 +67,7 @@ def run_case(args):
     ukind, ports, bports = UNITS[uname]
     D, of = unit_design(uname)
     ev = {"tid": tid, "kind": kind, "U": D, "of": of, "ports": [{"n": n, "w": w} for n, w in ports], "bports": [{"n": n, "of": o} for n, o in bports],
-          "a": case.get("a", ""), "b": case.get("b", ""), "n": case.get("n", 1), "raised": False, "P": conn.EMPTY_P, "exc": ""}
+          "a": case.get("a", ""), "b": case.get("b", ""), "n": case.get("n", 1), "raised": False, "P": conn.EMPTY_P, "exc": "", "inames": []}
     try:
         bld = Builder(h, D, "proc")
         k, ref = ukind.split(":")
@@ -100,6 +104,7 @@ def run_case(args):
         P = proj_package(pkg, None)
         P["top"] = P["order"][-1]
         ev["P"] = P
+        ev["inames"] = [i["n"] for i in P["mods"][P["top"]]["insts"]]
     except Exception as ex:
         ev["raised"] = True
         ev["exc"] = f"{type(ex).__name__}: {str(ex).strip().splitlines()[-1][:160] if str(ex).strip() else ''}"
